@@ -430,6 +430,59 @@ func inErr(f string, a ...interface{}) error { return &InErr{Msg: fmt.Sprintf(f,
 // a resolver receives must equal one of the two results.
 var Lenient = false
 
+// ShallowDefaults is the defect model of K-C04-nested-default: an object or list DEFAULT of an input field is inserted as
+// written - the fields it leaves to the nested type's own defaults stay absent.
+var ShallowDefaults = false
+
+var noFill int
+
+// FillLevel models ONE further coercion pass over an already coerced canonical value under ShallowDefaults: every input
+// object in it gets its absent defaulted fields filled with the default as written; what it inserts is not looked into.
+func FillLevel(s *model.Schema, t *model.TypeRef, v interface{}) interface{} {
+	if v == nil {
+		return nil
+	}
+	if t.NonNull {
+		return FillLevel(s, t.Of, v)
+	}
+	if t.List {
+		l, isL := v.([]interface{})
+		if !isL {
+			return v
+		}
+		out := make([]interface{}, len(l))
+		for i, e := range l {
+			out[i] = FillLevel(s, t.Of, e)
+		}
+		return out
+	}
+	td := s.Type(t.Name)
+	m, isM := v.(map[string]interface{})
+	if td == nil || td.Kind != model.Input || !isM {
+		return v
+	}
+	out := map[string]interface{}{}
+	for k, e := range m {
+		out[k] = e
+	}
+	for _, f := range td.Inputs {
+		if e, has := m[f.Name]; has {
+			out[f.Name] = FillLevel(s, f.Type, e)
+		} else if f.HasDefault {
+			save := ShallowDefaults
+			ShallowDefaults = true
+			noFill++
+			c, err := CoerceIn(s, f.Type, f.Default)
+			noFill--
+			ShallowDefaults = save
+			if err == nil {
+				out[f.Name] = c
+			}
+		}
+	}
+	return out
+}
+
 // Coerced wraps an already coerced (canonical) value substituted for a variable.
 type Coerced struct{ V interface{} }
 
@@ -444,6 +497,11 @@ func CoerceIn(s *model.Schema, t *model.TypeRef, v interface{}) (interface{}, er
 	if c, isC := v.(Coerced); isC {
 		if c.V == nil && t.NonNull {
 			return nil, inErr("null for non-null %s", t)
+		}
+		if ShallowDefaults {
+			// the defect model coerces a variable's value a second time when the argument is assembled: one more level
+			// of (as-written) defaults gets filled in
+			return FillLevel(s, t, c.V), nil
 		}
 		return c.V, nil
 	}
@@ -521,8 +579,19 @@ func CoerceIn(s *model.Schema, t *model.TypeRef, v interface{}) (interface{}, er
 				if _, has := out[f.Name]; has {
 					continue
 				}
+				if f.HasDefault && noFill > 0 {
+					continue // inside a default taken as written (defect model ShallowDefaults)
+				}
 				if f.HasDefault {
+					_, isObj := f.Default.(*model.ObjLit)
+					_, isList := f.Default.([]interface{})
+					if ShallowDefaults && (isObj || isList) {
+						noFill++
+					}
 					c, err := CoerceIn(s, f.Type, f.Default)
+					if ShallowDefaults && (isObj || isList) {
+						noFill--
+					}
 					if err != nil {
 						return nil, err
 					}
